@@ -38,7 +38,25 @@ DirLen(where) == CASE where = "inside" -> 1 [] where = "face" -> 1 [] where = "e
 
 \* The state is first a cheap *chunk descriptor* (so that initial-state enumeration, which is single threaded, does no
 \* geometry) and then one crystal of that chunk (computed by the workers in parallel).
+\* "deep": in a sheared cell, an atom 0.1 A below the far b-face and its partner on the other side of that face, deep
+\* inside the cell (a distance of cutoff -/+ 1 through the image): the partner is within bonding range of the face by its
+\* perpendicular distance, but not if the distance is measured along the cell vector
+DeepOf(q) ==
+  LET C == BCell(q[1])
+      B == <<400, 590, 500>>
+      img == VSub3(B, C[2])
+  IN {Mk(q[1], <<At(q[3], W(q[1], B)), At(q[4], W(q[1], VAdd3(img, <<0, k, 0>>)))>>, "deep") : k \in {Cut(q[3], q[4]) - 1, Cut(q[3], q[4]) + 1}}
+\* "near": two atoms on a line, in units of 1e-6 A, at cutoff -/+ 1e-6, 2e-5, 1e-3 A (no cell, or through the face of a 6 x 7 x 9 A
+\* box); judged without squares (JudgeNear)
+NearOf(q) ==
+  LET cut == Cut(q[3], q[4]) * 10000
+      L == 6000000
+  IN {[cellname |-> q[1], cell |-> IF q[1] = "none" THEN <<>> ELSE <<<<L, 0, 0>>, <<0, 7000000, 0>>, <<0, 0, 9000000>>>>, kind |-> "near",
+       atoms |-> <<At(q[3], <<100000, 3000000, 4000000>>),
+                   At(q[4], <<IF q[1] = "none" THEN 100000 + cut + k ELSE 100000 - (cut + k) + L, 3000000, 4000000>>)>>] :
+         k \in {-1000, -20, -1, 1, 20, 1000}}
 PairsOf(q) ==      \* q = <<cell, where, e1, e2>>
+  IF q[2] = "deep" THEN DeepOf(q) ELSE IF q[2] = "near" THEN NearOf(q) ELSE
   {Mk(q[1], <<At(q[3], W(q[1], Anchor(q[1], q[2]))), At(q[4], W(q[1], VAdd3(Anchor(q[1], q[2]), VMul3(k, Dir(q[2])))))>>, "pair") :
       k \in {(Cut(q[3], q[4]) \div DirLen(q[2])) - 1, (Cut(q[3], q[4]) \div DirLen(q[2])) + 1}}
 ScansOf(q) ==      \* q = <<cell, <<e1, e2>>, i>>
@@ -61,18 +79,20 @@ ChainsOf(q) ==     \* q = <<cell, {n}>>  (the same shape as the descriptors of "
   {Mk(q[1], [i \in 1..(CHOOSE n \in q[2] : TRUE) |->
                At(IF i % 5 = 0 THEN "N" ELSE "C", W(q[1], <<20 + 150 * ((i - 1) % 3), 30 + 240 * (((i - 1) \div 3) % 3), 40 + 250 * ((i - 1) \div 9)>>))], "chain")}
 
-Chunks == {[kind |-> "chunk", what |-> "chain", q |-> q] : q \in {"ortho", "tri"} \X {{18}, {24}, {27}}} \cup
+Chunks == {[kind |-> "chunk", what |-> "pair", q |-> q] : q \in ({"shearp", "shearm"} \X {"deep"} \X PairElems \X PairElems)
+                                                              \cup ({"none", "ortho"} \X {"near"} \X PairElems \X PairElems)} \cup
+          {[kind |-> "chunk", what |-> "chain", q |-> q] : q \in {"ortho", "tri"} \X {{18}, {24}, {27}}} \cup
           {[kind |-> "chunk", what |-> "pair", q |-> q] : q \in {"ortho", "tri"} \X {"inside", "face", "edge", "corner"} \X PairElems \X PairElems}
           \cup {[kind |-> "chunk", what |-> "scan", q |-> q] :
                    q \in {"shearp", "shearm", "tri", "ortho"} \X {<<"Zr", "Zr">>, <<"Cs", "I">>, <<"C", "C">>, <<"Cu", "O">>} \X (0..(600 \div ScanStep))}
           \cup {[kind |-> "chunk", what |-> "multi", q |-> q] : q \in {"ortho", "tri", "none"} \X UNION {SubsetsOf(7, k) : k \in 2..4}}
 CrystalsOf(c) == IF c.what = "chain" THEN ChainsOf(c.q) ELSE IF c.what = "pair" THEN PairsOf(c.q) ELSE IF c.what = "scan" THEN ScansOf(c.q) ELSE MultisOf(c.q)
-Valid(y) == ~Ambiguous(y) /\ InsideB(y) /\ WidthsOKB(y) /\ \A i, j \in 1..Len(y.atoms) : i # j => y.atoms[i].pos # y.atoms[j].pos
+Valid(y) == y.kind = "near" \/ (~Ambiguous(y) /\ InsideB(y) /\ WidthsOKB(y) /\ \A i, j \in 1..Len(y.atoms) : i # j => y.atoms[i].pos # y.atoms[j].pos)
 
 Init == x \in Chunks
 Next == x.kind = "chunk" /\ x' \in {y \in CrystalsOf(x) : Valid(y)}
 Spec == Init /\ [][Next]_vars
 \* the design (27 images of one atom against the other) finds exactly the minimum-image bonds
-DesignInv == x.kind # "chunk" => AlgoBonds(x) = DefBonds(x)
+DesignInv == x.kind \notin {"chunk", "near"} => AlgoBonds(x) = DefBonds(x)
 EmitInv == (Emit /\ x.kind # "chunk") => PrintT(<<"CRYSTAL", ToJson(x)>>)
 =============================================================================
